@@ -13,6 +13,8 @@ const (
 	DefaultTrackSequenceName   = "crd"
 	DefaultInstrument          = "Piano"
 	DefaultTicksPerQuoaterNote = 960
+	// MaxTicks is the largest time a MIDI file can state (4 bytes of 7 bits).
+	MaxTicks = 0x0FFFFFFF
 )
 
 var (
